@@ -81,6 +81,7 @@ Record pq_tables : Type := {
   pq_names : list (string * string);                 (* GATE_PROJECTQ *)
   pq_wbranches : list (list string * pq_shape);
   pq_rbranches : list (list string * pq_shape);
+  pq_w_single_ctrl : list string;   (* writer kinds whose branch starts with  if len(gate.control) != 1: raise ValueError *)
   pq_ignored : list string          (* literals of the two re.sub(...) that delete whole instructions *)
 }.
 
@@ -225,10 +226,19 @@ Section Formats.
   Definition hd_err (l : list Z) : res Z := match l with x :: _ => Ok x | [] => Err IndexError end.
 
   (* one iteration of the gate loop of translate_c_to_projectq (f-string fields left to right) *)
+  (* the guard  if len(gate.control) != 1: raise ValueError  at the top of a branch (before the f-string) *)
+  Definition pq_guard (g : pgate) : res unit :=
+    if smem (pname g) (pq_w_single_ctrl P) then
+      match pcontrol g with
+      | None => Err TypeError                                   (* len(None) *)
+      | Some cl => if Nat.eqb (length cl) 1 then Ok tt else Err ValueError
+      end
+    else Ok tt.
   Definition pq_write_gate (g : pgate) : res pqline :=
     match find_shape (pname g) (pq_wbranches P) with
     | None => Err ValueError
     | Some sh =>
+      do _ <- pq_guard g;
       do n <- opt_err KeyError (lookup (pname g) (pq_names P));
       match sh with
       | PQS1 => do t <- hd_err (ptarget g); Ok (PQLine n None [t])
@@ -288,6 +298,7 @@ Section Formats.
               | None => false
               | Some n' => name_equiv n n' && arity_eqb (arity T n') (arity T n)
                            && (match sh with PQS2 => starts_with_C n' | _ => negb (starts_with_C n) end)
+                           && (match sh with PQS2 => true | _ => negb (smem n (pq_w_single_ctrl P)) end)
               end
          end
     end.
